@@ -383,3 +383,72 @@ package sstables
 // not proved: two interleaved append targets defeat the array-separation reasoning within the time available. Grouping is
 // covered by the bounded driver super_reader_model.)
 
+
+// ---------------------------------------------------------------------------------------------------
+// C03: the in-memory slice index (default loader). ikey(l,i): content of the key of entry i.
+// sliceSorted(l): keys strictly ascending.
+
+//@ spec func sliceSorted(l Slice) Bool = forall a, b :: 0 <= a && a < b && b < len(l) ==> bcmp(content(l[a].key), content(l[b].key)) < 0
+
+// search is slices.BinarySearchFunc over bytes.Compare; its postcondition is assumed (library generic with a callback) and
+// exercised by the bounded driver slice_index_model.
+//@ func (*SliceKeyIndex).search
+//@   assumed
+//@   requires sliceSorted(s.index)
+//@   ensures [position] 0 <= r0 && r0 <= len(s.index)
+//@   ensures [before-are-smaller] forall i :: 0 <= i && i < r0 ==> bcmp(content(s.index[i].key), content(key)) < 0
+//@   ensures [from-there-not-smaller] forall i :: r0 <= i && i < len(s.index) ==> bcmp(content(s.index[i].key), content(key)) >= 0
+//@   ensures [found-iff-equal] r1 <==> (r0 < len(s.index) && bcmp(content(s.index[r0].key), content(key)) == 0)
+//@   modifies nothing
+
+//@ func (*SliceKeyIndex).Get
+//@   props C03
+//@   replay slice_index_model
+//@   requires sliceSorted(s.index)
+//@   ensures [found] forall i :: 0 <= i && i < len(s.index) && bcmp(content(s.index[i].key), content(key)) == 0 ==>
+//@           r1 == nil && r0.Offset == s.index[i].IndexVal.Offset && r0.Checksum == s.index[i].IndexVal.Checksum
+//@   ensures [not-found] (forall i :: 0 <= i && i < len(s.index) ==> bcmp(content(s.index[i].key), content(key)) != 0) ==> r1 == skiplist.NotFound
+//@   modifies nothing
+//@   safety on
+
+//@ func (*SliceKeyIndex).Contains
+//@   props C03
+//@   requires sliceSorted(s.index)
+//@   ensures [no-false-negative] forall i :: 0 <= i && i < len(s.index) && bcmp(content(s.index[i].key), content(key)) == 0 ==> r0 && r1 == nil
+//@   ensures [no-false-positive] (forall i :: 0 <= i && i < len(s.index) ==> bcmp(content(s.index[i].key), content(key)) != 0) ==> !r0 && r1 == nil
+//@   modifies nothing
+
+//@ func (*SliceKeyIndex).Iterator
+//@   props C03
+//@   exit [whole-index] r1 == nil && r0 != nil && asType(*SliceKeyIndexIterator, r0).index === s.index &&
+//@        asType(*SliceKeyIndexIterator, r0).currentIndex == 0 && asType(*SliceKeyIndexIterator, r0).endIndexExcl == len(s.index)
+
+//@ func (*SliceKeyIndex).IteratorStartingAt
+//@   props C03
+//@   requires sliceSorted(s.index)
+//@   exit [starts-at-first-not-smaller] r1 == nil && r0 != nil && asType(*SliceKeyIndexIterator, r0).index === s.index &&
+//@        asType(*SliceKeyIndexIterator, r0).endIndexExcl == len(s.index) &&
+//@        0 <= asType(*SliceKeyIndexIterator, r0).currentIndex && asType(*SliceKeyIndexIterator, r0).currentIndex <= len(s.index) &&
+//@        (forall i :: 0 <= i && i < len(s.index) ==> (i >= asType(*SliceKeyIndexIterator, r0).currentIndex <==> bcmp(content(s.index[i].key), content(key)) >= 0))
+
+//@ func (*SliceKeyIndex).IteratorBetween
+//@   props C03
+//@   replay slice_index_model
+//@   requires sliceSorted(s.index)
+//@   ensures [inverted-bounds-rejected] bcmp(content(keyLower), content(keyHigher)) > 0 <==> r1 != nil
+//@   exit [inclusive-range] r1 == nil ==> r0 != nil && asType(*SliceKeyIndexIterator, r0).index === s.index &&
+//@        0 <= asType(*SliceKeyIndexIterator, r0).currentIndex && asType(*SliceKeyIndexIterator, r0).endIndexExcl <= len(s.index) &&
+//@        (forall i :: 0 <= i && i < len(s.index) ==>
+//@           ((asType(*SliceKeyIndexIterator, r0).currentIndex <= i && i < asType(*SliceKeyIndexIterator, r0).endIndexExcl) <==>
+//@            (bcmp(content(keyLower), content(s.index[i].key)) <= 0 && bcmp(content(s.index[i].key), content(keyHigher)) <= 0)))
+//@   safety on
+
+//@ func (*SliceKeyIndexIterator).Next
+//@   props C03 C18
+//@   requires 0 <= s.currentIndex && s.endIndexExcl <= len(s.index)
+//@   ensures [done-at-end] old(s.currentIndex) >= old(s.endIndexExcl) ==> r2 == skiplist.Done && s.currentIndex == old(s.currentIndex)
+//@   ensures [yields-current-entry] old(s.currentIndex) < old(s.endIndexExcl) ==> r2 == nil && r0 === s.index[old(s.currentIndex)].key &&
+//@           r1.Offset == s.index[old(s.currentIndex)].IndexVal.Offset && r1.Checksum == s.index[old(s.currentIndex)].IndexVal.Checksum &&
+//@           s.currentIndex == old(s.currentIndex) + 1
+//@   modifies s.currentIndex
+//@   safety on
